@@ -13,6 +13,7 @@ def run(ctx):
     shared.macrostep_in_consumer(ctx, "R5")
     shared.snapshot_ancestor_closure(ctx, "R7")
     shared.restore_every_id(ctx, "R10")
+    shared.exit_set_scope(ctx, "R11")
     shared.dotted_id_tests(ctx, "R8")
     # R9: start() enters the root
     import ast
